@@ -125,7 +125,7 @@ func poCfg(maxParts, maxInner int, dev string, invs string, shard, nshards int) 
 		maxParts, maxInner, dev, shard, nshards, invs)
 }
 
-const poInvariants = "RoundTripIdentity RoundTripForms RoundTripReverse HeaderWins SeqIsConcat ExpectedIsSource AbsentFallsBack ExtractShape"
+const poInvariants = "RoundTripIdentity RoundTripForms RoundTripReverse HeaderWins SeqIsConcat ValidateOrRoundTrip ResolveMostSpecific ExpectedIsSource AbsentFallsBack ExtractShape"
 
 // runM1 checks the reference model.  Every state of SoyPOCheck is an initial
 // state (TLC checks those in one thread), so the family is split over several
@@ -175,6 +175,8 @@ func runDeviations(ctx *core.Ctx) {
 		{"builtin_rule_wins", "HeaderWins"},
 		{"lookup_cache_by_name", "SeqIsConcat"},
 		{"resume_after_close_brace", "RoundTripIdentity"},
+		{"extra_cases_dropped", "ValidateOrRoundTrip"},
+		{"least_specific_wins", "ResolveMostSpecific"},
 	}
 	self := map[string]interface{}{}
 	var wg sync.WaitGroup
